@@ -138,6 +138,13 @@ impl TDigestMut {
     ) -> Self {
         assert!(k >= 10, "k must be at least 10");
 
+        // a digest that holds no value has no extremes (an image may announce some)
+        let (min, max) = if centroids.is_empty() && buffer.is_empty() {
+            (f64::INFINITY, f64::NEG_INFINITY)
+        } else {
+            (min, max)
+        };
+
         let fudge = if k < 30 { 30 } else { 10 };
         let centroids_capacity = (k as usize * 2) + fudge;
 
